@@ -258,7 +258,8 @@ macro_rules! flag {
         if !($cond) {
             let sig: String = $sig.into();
             let class = if $seen.const_delay { "some source has constant/clamped delays (zero measurement-noise estimate possible)" } else { "all sources have varying delays" };
-            $c.violation(format!("{}/{}", sig, $c.profile), $what, json!({"observed": $extra, "input_class": class, "history": $s.describe()}));
+            let ic = $seen.input_class();
+            $c.violation(format!("{}/{}/{}", sig, ic, $c.profile), $what, json!({"observed": $extra, "input_class": ic, "delay_class": class, "history": $s.describe()}));
         }
     };
 }
@@ -287,6 +288,29 @@ struct Seen {
     backward_pub: bool,
     /// input class used in violation signatures: does any source have exactly constant delays / (near) zero configured noise
     const_delay: bool,
+    /// per source: the most recent offsets (raw) as measured
+    recent_offsets: std::collections::HashMap<usize, std::collections::VecDeque<i64>>,
+    /// sticky: some source delivered 8 consecutive bit-identical offsets (e.g. offsets saturated at the edge of
+    /// the representable range): the sample variance the filter starts from is then exactly zero
+    degenerate_offsets: bool,
+}
+
+impl Seen {
+    /// Input class that is part of every violation signature, so that a finding on the degenerate class
+    /// (bit-identical offsets) cannot hide a violation on ordinary inputs.
+    fn input_class(&self) -> &'static str {
+        if self.degenerate_offsets { "bit-identical-offsets" } else { "general-input" }
+    }
+    fn note_measurement(&mut self, src: usize, offset_raw: i64) {
+        let q = self.recent_offsets.entry(src).or_default();
+        q.push_back(offset_raw);
+        if q.len() > 8 {
+            q.pop_front();
+        }
+        if q.len() == 8 && q.iter().all(|o| *o == q[0]) {
+            self.degenerate_offsets = true;
+        }
+    }
 }
 
 fn check_published(c: &mut Case, s: &Sim, snap: &TimeSnapshot, now: ntp_proto::NtpTimestamp, seen: &mut Seen) {
@@ -320,7 +344,7 @@ fn check_published(c: &mut Case, s: &Sim, snap: &TimeSnapshot, now: ntp_proto::N
         json!({"dt": dt, "variance": format!("{v:e}"), "snapshot": snapshot_json(snap)})
     );
     let snap = *snap;
-    let label = format!("TimeSnapshot::root_dispersion/{when}");
+    let label = format!("TimeSnapshot::root_dispersion/{when}/{}", seen.input_class());
     let got = c.no_panic(&label, || json!({"dt": dt, "snapshot": snapshot_json(&snap), "history": s.describe()}), || snap.root_dispersion(now));
     if let Some(d) = got {
         // the published dispersion is a standard deviation: never negative, and not zero while the
@@ -340,9 +364,12 @@ fn check_published(c: &mut Case, s: &Sim, snap: &TimeSnapshot, now: ntp_proto::N
 }
 
 fn judge(c: &mut Case, s: &Sim, info: &StepInfo, seen: &mut Seen) {
+    if let Some(m) = &info.meas {
+        seen.note_measurement(m.src, m.offset_raw);
+    }
     if let Some((w, p)) = &info.panic {
         c.violation(
-            format!("panic/{w}/{}/{}", c.profile, p.site()),
+            format!("panic/{w}/{}/{}/{}", seen.input_class(), c.profile, p.site()),
             format!("panic in {w} at {}: {}", p.location, p.message),
             json!({"history": s.describe()}),
         );
@@ -355,6 +382,9 @@ fn judge(c: &mut Case, s: &Sim, info: &StepInfo, seen: &mut Seen) {
     }
     if let Some(m) = &info.msg {
         c.inc("source_messages");
+        if c.replaying && std::env::var("VERIF_TRACE").is_ok() {
+            eprintln!("TRACE meas={:?} offset={:e} freq={:e} var=[{:e} {:e} {:e} {:e}] delay={:e} wander={:e}", info.meas.as_ref().map(|m| (m.src, m.offset_raw, m.delay_raw, m.t)), m.offset, m.frequency, m.var00, m.var01, m.var10, m.var11, m.delay, m.wander);
+        }
         let view = || json!({"offset": format!("{:e}", m.offset), "frequency": format!("{:e}", m.frequency), "var00": format!("{:e}", m.var00), "var01": format!("{:e}", m.var01), "var10": format!("{:e}", m.var10), "var11": format!("{:e}", m.var11), "delay": format!("{:e}", m.delay), "wander": format!("{:e}", m.wander)});
         flag!(c, s, seen, m.offset.is_finite(), "source/offset-not-finite", format!("per-source offset estimate is {}", m.offset), view());
         flag!(c, s, seen, m.var00.is_finite() && m.var00 >= 0.0, "source/offset-variance-negative-or-not-finite", format!("per-source offset variance is {:e}: the reported uncertainty sqrt(.) is not a finite non-negative number", m.var00), view());
